@@ -42,6 +42,7 @@ def run(rep, tier, seed):
     import subprocess
     if subprocess.run([sys.executable, os.path.join(VERIF, "tools", "gen_complex.py"), "--check"], stdout=subprocess.PIPE).returncode != 0:
         raise Machinery("spec/CTPS.tla, CUTPMachine.tla, MC_CUTPM.tla are out of date: run tools/gen_complex.py")
+    U.dirty_out_check(rep, load_algopy(), ("add", "sub", "mul", "div", "neg"), seed)
     U.self_test(rep)
     rep.assumptions += ["coefficients on a rational grid (Gaussian rationals in the complex instance)",
                         "floats compared with exact rationals: |v-q| <= 1e-11 + 1e-9|q|"]
